@@ -27,6 +27,10 @@ type Inode struct {
 	Entries map[string]int // name -> ino (directories)
 	Nlink   int
 	Opens   int
+	// modification time on a logical clock: advanced whenever the contents (file) or the
+	// entry table (directory) differ from what the previous stat of this inode saw
+	MtimeGen int64
+	mtimeSig string
 	// durability
 	Durable []byte   // contents as of the last fsync (nil for never-synced)
 	Pending []PWrite // data operations since then, in order
@@ -89,6 +93,7 @@ type Kernel struct {
 	Monitor   func(k *Kernel, c Call) // invariant monitors (after each call)
 	NoTrace   bool
 	FaultHits int
+	NoTmpfile bool // O_TMPFILE answers EOPNOTSUPP (a filesystem without unnamed temporary files)
 }
 
 // K is the kernel the package-level functions operate on.
@@ -270,6 +275,35 @@ func (k *Kernel) dropIfDead(in *Inode) {
 // ---------------------------------------------------------------- open
 
 func (k *Kernel) openat(dirfd int, path string, flags int, mode uint32) (int, Errno) {
+	if flags&O_TMPFILE == O_TMPFILE {
+		// an unnamed file in the given directory: an inode without a link (it gets one through
+		// linkat of /proc/self/fd/N, or disappears with its last descriptor)
+		if k.NoTmpfile {
+			return -1, syscall.EOPNOTSUPP
+		}
+		if flags&O_ACCMODE == O_RDONLY {
+			return -1, syscall.EINVAL
+		}
+		pd, pn, e := k.resolve(dirfd, path)
+		if e != 0 {
+			return -1, e
+		}
+		target := pd
+		if pn != "." {
+			ino, ok := pd.Entries[pn]
+			if !ok {
+				return -1, syscall.ENOENT
+			}
+			target = k.Inodes[ino]
+		}
+		if !target.Dir {
+			return -1, syscall.ENOTDIR
+		}
+		in := &Inode{Ino: k.NextIno, Nlink: 0}
+		k.NextIno++
+		k.Inodes[in.Ino] = in
+		return k.newFd(in.Ino, flags&^O_TMPFILE|flags&O_ACCMODE), 0
+	}
 	dir, name, e := k.resolve(dirfd, path)
 	if e != 0 {
 		return -1, e
